@@ -48,4 +48,5 @@ def run(rep, fb, tier):
     _bd.rule_pointer_units(rep, fb)
     _bd.rule_buffer_info_pair(rep, fb)
     _bd.rule_def_arg_order(rep, fb)
+    __import__("vf.rules.binding", fromlist=["x"]).rule_stride_division(rep, fb)
     rep.units = fb.units + ["src/awkward/operations/convert.py, highlevel.py, _util.py, partition.py (ast)"]
